@@ -67,6 +67,11 @@ let rec parse_op (s : string) : op =
   | ["waw"; a; sep] -> OWithWord (nolimit, sarg a, bytes_of_hex sep)
   | ["wpw"; a; sep] -> OWithWord (N0, sarg a, bytes_of_hex sep)
   | ["ind"; n; ch] -> OIndented (num n, num ch)
+  | ["plh"; ch] -> OPlusCh (num ch)
+  | ["hpl"; ch] -> OChPlus (num ch)
+  | ["cpl"; x] -> OCPlus (bytes_of_hex x)
+  | ["mns"; a] -> OMinusPS (sarg a)
+  | ["mnh"; ch] -> OMinusPCh (num ch)
   | ["esc"; x; ch] -> OEscaped (bytes_of_hex x, num ch)
   | ["wsfh"; ch] -> OWithSuffixCh (num ch)
   | ["wpfh"; ch] -> OWithPrefixCh (num ch)
